@@ -154,7 +154,11 @@ class wind(PseudoNetCDFFile):
         self.rffile.next()
         nlayers = 0
         while not self.rffile.record_size == self.time_hdr_size:
-            self.rffile.next()
+            if not self.rffile.next():
+                # end of file before a second time record: rffile.next()
+                # does not move any more and this loop would never end
+                raise ValueError('wind file holds a single time step; ' +
+                                 'the time step cannot be inferred')
             nlayers += 1
 
         self.nlayers = (nlayers - 1) // 2
